@@ -116,6 +116,10 @@ class Parser:
     # -- types (skipped, returned as text)
     def skip_type(self):
         depth, out = 0, []
+        while self.peek() in ("*", "&"):        # raw pointer / reference types: `*const T`, `*mut T`, `&'a mut T`
+            out.append(self.eat())
+            while self.peek() in ("const", "mut") or (self.peek() or "").startswith("'"):
+                out.append(self.eat())
         while True:
             tok = self.peek()
             if tok is None:
